@@ -232,6 +232,31 @@ func generatedCodeShape(goCode []byte) []byte {
 	return templErrorPosition.ReplaceAll(goCode, []byte("${1}Line: 0, Col: 0}"))
 }
 
+// writeFileAtomically replaces the file by renaming a completely written temporary file over it, so that a
+// program that reads the file while it is being replaced sees the old contents or the new ones, never a part.
+func writeFileAtomically(fileName string, contents []byte) (err error) {
+	tmp, err := os.CreateTemp(filepath.Dir(fileName), filepath.Base(fileName)+".*.tmp")
+	if err != nil {
+		return err
+	}
+	defer func() {
+		if err != nil {
+			_ = os.Remove(tmp.Name())
+		}
+	}()
+	_, err = tmp.Write(contents)
+	if closeErr := tmp.Close(); err == nil {
+		err = closeErr
+	}
+	if err != nil {
+		return err
+	}
+	if err = os.Chmod(tmp.Name(), 0o644); err != nil {
+		return err
+	}
+	return os.Rename(tmp.Name(), fileName)
+}
+
 // generate Go code for a single template.
 // If a basePath is provided, the filename included in error messages is relative to it.
 func (h *FSEventHandler) generate(ctx context.Context, fileName string) (result GenerateResult, diagnostics []parser.Diagnostic, err error) {
@@ -282,7 +307,7 @@ func (h *FSEventHandler) generate(ctx context.Context, fileName string) (result 
 		txtHash := sha256.Sum256([]byte(joined))
 		if h.UpsertHash(txtFileName, txtHash) {
 			result.TextUpdated = true
-			if err = os.WriteFile(txtFileName, []byte(joined), 0o644); err != nil {
+			if err = writeFileAtomically(txtFileName, []byte(joined)); err != nil {
 				return result, nil, fmt.Errorf("failed to write string literal file %q: %w", txtFileName, err)
 			}
 		}
